@@ -26,7 +26,7 @@ PROPS = {
     ),
     "C09": dict(
         verus=["strings", "incr", "names", "mainwriter"],
-        standins=["fmt"],
+        standins=["fmt", "objects"],
         not_decided="integers/reals (number text), arrays/dictionaries nesting, object streams, names (C30), the ISO-reader lemma for EOL handling",
     ),
     "C12": dict(
@@ -35,6 +35,7 @@ PROPS = {
     ),
     "C04": dict(
         verus=["prevmerge"],
+        standins=["revisions"],
         not_decided="that parse_primary_with_options builds each revision's table faithfully from bytes; the recovery scan (add_headers_latest_wins pending); object-stream extraction; that load_object_from_disk's lookup order is extended_entries-then-entries (transcribed in `dispatch`)",
     ),
     "C10": dict(
@@ -136,8 +137,8 @@ PROPS = {
     ),
     "C29": dict(
         verus=["lru"],
-        standins=["lru"],
-        not_decided="ObjectCache's RwLock wrapper (concurrency) is an argument in DESIGN.md, not a proof",
+        standins=["lru", "objcache"],
+        not_decided="concurrency itself: ObjectCache's methods are proved to be single LruCache operations under the lock after rule R27 (std RwLock semantics trusted); that every concurrent history is a sequential one is an argument in DESIGN.md, not a proof",
         trusted=["std::collections::VecDeque::retain: mask-style assume_specification (DESIGN 2.1)"],
     ),
 }
